@@ -74,8 +74,14 @@ def ensure_facts():
             base = os.path.join(CACHE, "facts")
             olds = [os.path.join(base, o) for o in os.listdir(base) if o != th]
             olds = sorted((p for p in olds if os.path.isdir(p) and not os.path.islink(p)), key=os.path.getmtime, reverse=True)
+            # keep the 3 newest stores and anything used in the last 15 minutes (a concurrent check may still be reading it)
             for p in olds[3:]:
-                subprocess.run(["rm", "-rf", p])
+                try:
+                    age = time.time() - os.path.getmtime(os.path.join(p, "COMPLETE"))
+                except OSError:
+                    age = 1e9
+                if age > 900:
+                    subprocess.run(["rm", "-rf", p])
             t0 = time.time()
             r = subprocess.run([os.path.join(V, "bin/extract.sh"), d, REPO, os.path.join(CACHE, "target")], capture_output=True, text=True)
             if r.returncode != 0:
@@ -84,6 +90,10 @@ def ensure_facts():
             Facts(d).build_index()
             with open(os.path.join(d, "COMPLETE"), "w") as fh:
                 fh.write("%s files hashed; extracted in %.1fs\n" % (nfiles, time.time() - t0))
+        try:
+            os.utime(os.path.join(d, "COMPLETE"))
+        except OSError:
+            pass
         cur = os.path.join(CACHE, "facts", "current")
         try:
             if os.path.islink(cur) or os.path.exists(cur):
@@ -252,11 +262,40 @@ def main():
         "wall_s": round(time.time() - t0, 2),
         "violations": nviol,
     }
+    # thorough tier: the checker is itself exercised on this tree - every mutation twin of the property (selftest/mutants/<prop>.json)
+    # is applied to a scratch copy of the *current* /repo and must fire (or, for behaviour-preserving twins, stay silent).
+    # Twins whose snippet no longer occurs in the tree are skipped. Only run when the tree itself is clean, so a twin's outcome is attributable.
+    st_fail = 0
+    if tier == "thorough" and nviol == 0 and not os.environ.get("CKB_VERIF_NO_SELFTEST") and not os.environ.get("CKB_VERIF_REPO"):
+        import subprocess
+        scratch = "/scratch/ckb-verif-selftest-%s-%d" % (prop, os.getpid())
+        env = dict(os.environ, CKB_VERIF_SCRATCH=scratch, CKB_VERIF_NO_SELFTEST="1")
+        env.pop("VERIF_TIER", None)
+        r = subprocess.run([sys.executable, os.path.join(V, "selftest", "run.py"), "--prop", prop, "--json"], capture_output=True, text=True, env=env)
+        res = []
+        for line in r.stdout.splitlines():
+            if line.startswith("[{") or line == "[]":
+                try:
+                    res = json.loads(line)
+                except ValueError:
+                    pass
+        skipped = [x for x in res if x.get("skipped")]
+        ran = [x for x in res if not x.get("skipped")]
+        st_fail = len([x for x in ran if not x["ok"]])
+        ev["coverage"]["selftest"] = {"twins": len(res), "ran": len(ran), "as_expected": len(ran) - st_fail, "skipped_snippet_gone": len(skipped),
+                                      "failed": [{"id": x["id"], "why": x["why"][:300]} for x in ran if not x["ok"]]}
+        print("SELFTEST %s: %d twins, %d ran, %d as expected, %d skipped (snippet no longer in the tree)" % (prop, len(res), len(ran), len(ran) - st_fail, len(skipped)))
+        for x in ran:
+            if not x["ok"]:
+                print("SELFTEST-FAIL %s %s: %s" % (prop, x["id"], x["why"][:300]))
     os.makedirs(EVDIR, exist_ok=True)
     with open(os.path.join(EVDIR, prop + ".json"), "w") as fh:
         json.dump(ev, fh, indent=1)
     print("%s: %d instances, %d hold, %d known finding(s), %d violation(s); %d functions, %d sites; %.1fs" % (
         prop, len(okkeys), ev["coverage"]["discharged"], nknown, nviol, len(R.fns | F.touched), R.sites, time.time() - t0))
+    if st_fail:
+        print("ERROR machinery failure for %s: %d mutation twin(s) did not behave as expected - the checker can no longer be trusted on this tree" % (prop, st_fail))
+        return 2
     return 1 if nviol else 0
 
 
